@@ -263,19 +263,24 @@ Definition target_toks (paren : bool) (al : list alias) : list tok :=
   let body := tjoin TComma (map alias_toks al) in
   if paren then TLpar :: body ++ [TRpar] else body.
 
+(* the one-line test of pyfill: parentheses appear exactly when it fails *)
+Definition pyfill_fits (prefix : str) (tokens : list str) (P : params) : bool :=
+  (length prefix + (sum_len tokens + 2 * (length tokens - 1)) <=? width_of P)%nat.
+
 (* pyfill: the prefix verbatim, then a lexable layout of the aliases *)
 Lemma pyfill_layout pfx al P : al <> [] -> Forall wf_alias al ->
-  exists paren l, pyfill pfx (map alias_token al) P = pfx ++ render l /\
+  exists l, pyfill pfx (map alias_token al) P = pfx ++ render l /\
     Forall item_wf l /\ no_adjacent_names l = true /\
-    toks 0 l = Some (0, target_toks paren al ++ [TNewline]) /\ exists l', l = l' ++ [INewline].
+    toks 0 l = Some (0, target_toks (negb (pyfill_fits pfx (map alias_token al) P)) al ++ [TNewline]) /\
+    exists l', l = l' ++ [INewline].
 Proof.
   intros Hne Hwf. destruct al as [|a0 rest]; [congruence|].
   inversion Hwf as [|? ? Ha0 Hrest]; subst.
   destruct (piece_alias_items a0 Ha0) as [W0 A0 T0].
-  unfold pyfill.
-  match goal with |- context [if ?c then _ else _] => destruct c end.
+  unfold pyfill, pyfill_fits.
+  match goal with |- context [if ?c then _ else _] => destruct c end; cbn [negb].
   - (* one line *)
-    exists false, (flat_items (map alias_items (a0 :: rest)) ++ [INewline]).
+    exists (flat_items (map alias_items (a0 :: rest)) ++ [INewline]).
     assert (Hp : piece (flat_items (map alias_items (a0 :: rest))) (tjoin TComma (map alias_toks (a0 :: rest)))).
     { apply piece_flat; [discriminate|]. apply Forall2_map_piece.
       eapply Forall_impl; [|exact Hwf]. intros a Ha. apply piece_alias_items. exact Ha. }
@@ -299,7 +304,7 @@ Proof.
       destruct Hl0 as (i & q & -> & Hi).
       assert (Hal : no_adjacent_names (alias_items a0 ++ i :: q) = true).
       { apply no_adj_app_sep; [exact Hi|exact A0|]. apply no_adj_tail in A. exact A. }
-      exists true, (ILpar :: INewline :: sp_items (indent P) ++ alias_items a0 ++ i :: q). split5.
+      exists (ILpar :: INewline :: sp_items (indent P) ++ alias_items a0 ++ i :: q). split5.
       * rewrite E. rewrite !render_cons, !render_app, render_sp_items, <- alias_token_render. cbn [render1].
         rewrite <- !app_assoc. reflexivity.
       * constructor; [exact I|]. constructor; [exact I|]. apply Forall_app; split; [exact Ws|].
@@ -321,7 +326,7 @@ Proof.
       destruct Hl0 as (i & q & -> & Hi).
       assert (Hal : no_adjacent_names (alias_items a0 ++ i :: q) = true).
       { apply no_adj_app_sep; [exact Hi|exact A0|]. apply no_adj_tail in A. exact A. }
-      exists true, (ILpar :: alias_items a0 ++ i :: q). split5.
+      exists (ILpar :: alias_items a0 ++ i :: q). split5.
       * rewrite E. rewrite !render_cons, !render_app, <- alias_token_render. cbn [render1].
         rewrite <- !app_assoc. reflexivity.
       * constructor; [exact I|]. apply Forall_app; split; assumption.
@@ -472,12 +477,21 @@ Proof. intros H -> ->. exact H. Qed.
 Ltac norm_app := repeat (cbn [app]; rewrite <- ?app_assoc); cbn [app].
 
 (* ---------- print_lexes, one statement ---------- *)
+(* whether a statement is printed with parentheses: a `from` statement (not a star import) that does not fit *)
+Definition stmt_paren (P : params) (col : option nat) (fs : nat) (st : stmt) : bool :=
+  match fst st with
+  | None => false
+  | Some _ => let tokens := map alias_token (snd st) in
+              if strs_is_star tokens then false
+              else negb (pyfill_fits (snd (stmt_head col fs (fst st))) tokens P)
+  end.
+
 Theorem print_statement_lexes P col fs ss : wf_sstmt ss -> fs <> 0 ->
-  exists paren, lexes_to (print_statement P col fs (to_stmt ss)) (stmt_toks paren ss ++ [TNewline]).
+  lexes_to (print_statement P col fs (to_stmt ss)) (stmt_toks (stmt_paren P col fs (to_stmt ss)) ss ++ [TNewline]).
 Proof.
   intros Hwf Hfs. destruct ss as [al|lvl md|lvl md al]; cbn [wf_sstmt] in Hwf.
   - (* import a.b, c as d *)
-    destruct Hwf as [Hne Hal]. exists false.
+    destruct Hwf as [Hne Hal].
     unfold print_statement. cbn [to_stmt fst snd stmt_head app].
     assert (Hp : piece (flat_items (map salias_items al)) (tjoin TComma (map salias_toks al))).
     { apply piece_flat; [destruct al; [congruence|discriminate]|]. apply Forall2_map_piece.
@@ -501,7 +515,7 @@ Proof.
     + apply (toks_app _ [INewline] 0 0 _ 0 [TNewline] (T 0)). reflexivity.
     + eexists. reflexivity.
   - (* from m import * *)
-    exists false. unfold print_statement. cbn [to_stmt fst snd map].
+    unfold print_statement. cbn [to_stmt fst snd map].
     change (alias_token (s_star, None)) with s_star.
     change (strs_is_star [s_star]) with true. cbn iota. cbn [join_str].
     eapply lexes_to_eq;
@@ -519,8 +533,10 @@ Proof.
     { destruct al as [|a [|b r]]; try reflexivity. cbn. inversion Hal; subst. apply alias_token_not_star. assumption. }
     rewrite Hns.
     destruct (pyfill_layout (snd (stmt_head col fs (Some (modname lvl md)))) al P Hne Hal)
-      as (paren & l & E & W & A & T & Hl).
-    exists paren. rewrite E.
+      as (l & E & W & A & T & Hl).
+    unfold stmt_paren. cbn [to_stmt fst snd]. rewrite Hns.
+    set (paren := negb (pyfill_fits (snd (stmt_head col fs (Some (modname lvl md)))) (map alias_token al) P)) in *.
+    rewrite E.
     eapply lexes_to_eq; [apply (glue_head_body _ _ l _ (piece_from_head col fs lvl md Hm Hfs) W A T Hl)| |].
     + symmetry. rewrite app_assoc, stmt_head_render. rewrite <- !app_assoc. reflexivity.
     + unfold target_toks. cbn [stmt_toks]. destruct paren; norm_app; reflexivity.
@@ -531,7 +547,8 @@ Qed.
 Theorem statement_roundtrip P col fs ss : wf_sstmt ss -> fs <> 0 ->
   parse_stmts (print_statement P col fs (to_stmt ss)) = Some [to_stmt ss].
 Proof.
-  intros Hwf Hfs. destruct (print_statement_lexes P col fs ss Hwf Hfs) as (paren & HL).
+  intros Hwf Hfs. pose proof (print_statement_lexes P col fs ss Hwf Hfs) as HL.
+  set (paren := stmt_paren P col fs (to_stmt ss)) in *.
   unfold parse_stmts. rewrite (lexes_to_lex _ _ HL).
   replace (stmt_toks paren ss ++ [TNewline]) with (block_toks [(paren, ss)])
     by (unfold block_toks; cbn [map concat fst snd]; apply app_nil_r).
@@ -543,15 +560,17 @@ Lemma block_lexes P : forall (l : list (option nat * nat * stmt)),
   Forall (fun x => wf_stmt (snd x) /\ snd (fst x) <> 0) l ->
   exists bl : list (bool * sstmt),
     map (fun ps => to_stmt (snd ps)) bl = map snd l /\ Forall (fun ps => wf_sstmt (snd ps)) bl /\
+    map fst bl = map (fun x => stmt_paren P (fst (fst x)) (snd (fst x)) (snd x)) l /\
     lexes_to (concat (map (fun x => print_statement P (fst (fst x)) (snd (fst x)) (snd x)) l)) (block_toks bl).
 Proof.
   induction 1 as [|x l [(ss & Hss & Est) Hfs] Hl IH].
   - exists []. repeat split; [constructor|apply lexes_to_nil].
-  - destruct IH as (bl & Em & Hb & HL).
-    destruct (print_statement_lexes P (fst (fst x)) (snd (fst x)) ss Hss Hfs) as (paren & HL1).
-    exists ((paren, ss) :: bl). split; [|split].
+  - destruct IH as (bl & Em & Hb & Ef & HL).
+    pose proof (print_statement_lexes P (fst (fst x)) (snd (fst x)) ss Hss Hfs) as HL1.
+    exists ((stmt_paren P (fst (fst x)) (snd (fst x)) (to_stmt ss), ss) :: bl). split; [|split; [|split]].
     + cbn [map fst snd]. rewrite Em, Est. reflexivity.
     + constructor; assumption.
+    + cbn [map fst snd]. rewrite Ef, Est. reflexivity.
     + cbn [map concat]. unfold block_toks. cbn [map concat fst snd]. fold (block_toks bl).
       rewrite Est. apply lexes_to_app; assumption.
 Qed.
@@ -560,7 +579,7 @@ Theorem block_roundtrip P (l : list (option nat * nat * stmt)) :
   Forall (fun x => wf_stmt (snd x) /\ snd (fst x) <> 0) l ->
   parse_stmts (concat (map (fun x => print_statement P (fst (fst x)) (snd (fst x)) (snd x)) l)) = Some (map snd l).
 Proof.
-  intros H. destruct (block_lexes P l H) as (bl & Em & Hb & HL).
+  intros H. destruct (block_lexes P l H) as (bl & Em & Hb & _ & HL).
   unfold parse_stmts. rewrite (lexes_to_lex _ _ HL), (parse_block_ok bl Hb), Em. reflexivity.
 Qed.
 
@@ -576,29 +595,37 @@ Lemma pp_as_print P col st :
 Proof. unfold pp, pp_args. destruct (do_align P st); reflexivity. Qed.
 
 Lemma print_set_shape P S out : print_set P S = Some out ->
-  exists col, out = concat (map (pp P col) (get_statements (separate_from_imports P) S)).
+  exists col, choose_column P (get_statements (separate_from_imports P) S) = inr col /\
+              out = concat (map (pp P col) (get_statements (separate_from_imports P) S)).
 Proof.
   unfold print_set, print_set_r. destruct (conflicting_imports S); [|discriminate].
-  destruct (choose_column P _) as [e|col]; [discriminate|]. intros H. inversion H. exists col. reflexivity.
+  destruct (choose_column P _) as [e|col]; [discriminate|]. intros H. inversion H. exists col. split; reflexivity.
 Qed.
+
+(* parenthesised or not, for a statement printed by pp at the chosen column *)
+Definition pp_paren (P : params) (col : option nat) (st : stmt) : bool :=
+  stmt_paren P (fst (fst (pp_args P col st))) (snd (fst (pp_args P col st))) (snd (pp_args P col st)).
 
 (* the token list the printed block lexes to: the statements' tokens, each with or without parentheses *)
 Theorem print_set_lexes_stmts P S out :
   Forall wf_stmt (get_statements (separate_from_imports P) S) -> print_set P S = Some out ->
-  exists bl : list (bool * sstmt),
+  exists (col : option nat) (bl : list (bool * sstmt)),
+    choose_column P (get_statements (separate_from_imports P) S) = inr col /\
     map (fun ps => to_stmt (snd ps)) bl = get_statements (separate_from_imports P) S /\
     Forall (fun ps => wf_sstmt (snd ps)) bl /\
+    map fst bl = map (pp_paren P col) (get_statements (separate_from_imports P) S) /\
     lex out = Some (block_toks bl).
 Proof.
-  intros Hwf Hp. destruct (print_set_shape P S out Hp) as (col & ->).
+  intros Hwf Hp. destruct (print_set_shape P S out Hp) as (col & Hcol & ->). exists col.
   set (sts := get_statements (separate_from_imports P) S) in *.
-  destruct (block_lexes P (map (pp_args P col) sts)) as (bl & Em & Hb & HL).
+  destruct (block_lexes P (map (pp_args P col) sts)) as (bl & Em & Hb & Ef & HL).
   - apply Forall_forall. intros x Hx. apply in_map_iff in Hx as (st & <- & Hst).
     rewrite Forall_forall in Hwf. unfold pp_args. destruct (do_align P st); cbn [fst snd]; split; auto.
     apply clamp_spaces_nz.
-  - exists bl. split; [|split; [exact Hb|]].
+  - exists bl. split; [exact Hcol|]. split; [|split; [exact Hb|split]].
     + rewrite Em, map_map. rewrite <- (map_id sts) at 2. apply map_ext. intros st.
       unfold pp_args. destruct (do_align P st); reflexivity.
+    + rewrite Ef, map_map. reflexivity.
     + apply lexes_to_lex. rewrite map_map in HL.
       replace (map (pp P col) sts)
         with (map (fun x => print_statement P (fst (fst (pp_args P col x))) (snd (fst (pp_args P col x))) (snd (pp_args P col x))) sts).
@@ -611,7 +638,7 @@ Theorem print_set_roundtrip_stmts P S out :
   parse_stmts out = Some (get_statements (separate_from_imports P) S) /\
   parse_imports out = Some (canonical (separate_from_imports P) S).
 Proof.
-  intros Hwf Hp. destruct (print_set_lexes_stmts P S out Hwf Hp) as (bl & Em & Hb & HL).
+  intros Hwf Hp. destruct (print_set_lexes_stmts P S out Hwf Hp) as (col & bl & _ & Em & Hb & _ & HL).
   assert (H1 : parse_stmts out = Some (get_statements (separate_from_imports P) S)).
   { unfold parse_stmts. rewrite HL, (parse_block_ok bl Hb), Em. reflexivity. }
   split; [exact H1|]. unfold parse_imports. rewrite H1. reflexivity.
